@@ -18,8 +18,10 @@ VERIF=${VERIF:-/verif}
 HERE=$(cd "$(dirname "$0")" && pwd)
 EXPECT=${EXPECT:-$VERIF/expect}
 W=${W:-$VERIF/.work/translator/selftest}
+LEANSRC=${LEANSRC:-$VERIF/lean}   # where RigoProofs/GenFuncs*.lean are taken from
 MAIN=$VERIF/lean/.lake/build/lib/lean
-PROOFS=${PROOFS:-"GenFuncsBase GenFuncsSimple GenFuncsLoops GenFuncsLimiter GenFuncsSigner GenFuncsSlash GenFuncsValUpd GenFuncs"}
+PROOFS=${PROOFS:-"GenFuncsBase GenFuncsSimple GenFuncsLoops GenFuncsLimiter GenFuncsSigner GenFuncsSlash GenFuncsValUpd GenFuncsStake2 GenFuncsTx GenFuncsMerge GenFuncsLimiter2 GenFuncsGovBase GenFuncsGovMisc GenFuncsGov GenFuncsGovPunish GenFuncs"}
+ONLY=${ONLY:-}   # e.g. ONLY="M14 M15 H5": run only these rows (besides the clean base)
 rm -rf "$W"; mkdir -p "$W"
 OWN_WT=""
 if [ $# -ge 1 ]; then SRC=$1; else
@@ -32,7 +34,7 @@ trap cleanup EXIT
 mkdir -p "$VERIF/.build"
 ( flock 9; cp "$SRC/go.sum" "$HERE/go.sum" 2>/dev/null; cd "$HERE" && go build -o "$W/rigoextract" . ) 9>"$VERIF/.build/go.lock" \
   || { echo "extractor does not build"; exit 2; }
-for m in Rigo/Types Rigo/StakeLogic Rigo/App Rigo/Signer; do
+for m in Rigo/Types Rigo/StakeLogic Rigo/App Rigo/Block Rigo/Signer Rigo/Determinism RigoProofs/C01Sort; do
   [ -f "$MAIN/$m.olean" ] || { echo "missing $MAIN/$m.olean: build the model first"; exit 2; }
 done
 
@@ -41,11 +43,12 @@ check() {
   local src=$1 d=$W/$2
   mkdir -p "$d/Rigo/Generated" "$d/RigoProofs" "$d/out/RigoProofs"
   cp -rs "$MAIN/Rigo" "$d/out/Rigo"; rm -f "$d"/out/Rigo/Generated/Funcs.*
+  ln -s "$MAIN/RigoProofs/C01Sort.olean" "$d/out/RigoProofs/C01Sort.olean"
   "$W/rigoextract" -repo "$src" -expect "$EXPECT" -json "$d/facts.json" -funcs "$d/Rigo/Generated/Funcs.lean" >"$d/extract.log" 2>&1 \
     || { echo "extractor failed|-"; return; }
   local fv
   fv=$(python3 -c "import json,sys; c=json.load(open('$d/facts.json'))['checks']['funcs']; print('ok' if c['ok'] else 'FAIL: '+'; '.join(c['problems'])[:160])")
-  cp "$VERIF"/lean/RigoProofs/GenFuncs*.lean "$d/RigoProofs/"
+  cp "$LEANSRC"/RigoProofs/GenFuncs*.lean "$d/RigoProofs/"
   ( cd "$d" && LEAN_PATH=$MAIN lean -o out/Rigo/Generated/Funcs.olean Rigo/Generated/Funcs.lean >funcs.log 2>&1 ) \
     || { echo "$fv|generated file does not compile"; return; }
   for p in $PROOFS; do
@@ -56,7 +59,12 @@ check() {
       # name of the theorem around the first error
       local line thm
       line=$(echo "$first" | cut -d: -f2)
-      thm=$(head -n "${line:-1}" "$d/RigoProofs/$p.lean" | grep -E "^(theorem|example|def|abbrev) " | tail -1 | awk '{print $2}')
+      # an error of a whole declaration is reported at its doc comment: look forward then
+      if sed -n "${line:-1}p" "$d/RigoProofs/$p.lean" | grep -q '^/--'; then
+        thm=$(tail -n "+${line:-1}" "$d/RigoProofs/$p.lean" | grep -m1 -E "^(theorem|example|def|abbrev) " | awk '{print $2}')
+      else
+        thm=$(head -n "${line:-1}" "$d/RigoProofs/$p.lean" | grep -E "^(theorem|example|def|abbrev) " | tail -1 | awk '{print $2}')
+      fi
       echo "$fv|FAILS in $p.lean (${thm:-?})"
       return
     fi
@@ -89,6 +97,7 @@ printf "%-4s %-58s %-26s %s\n" "B" "none (clean HEAD)" "${r%%|*}" "${r##*|}"
 BASE_OK=0; [ "${r##*|}" = "passes" ] && [ "${r%%|*}" = "ok" ] && BASE_OK=1
 
 run() { # id label file nth old new description
+  if [ -n "$ONLY" ]; then case " $ONLY " in *" $1 "*) ;; *) return;; esac; fi
   local d
   d=$(mutate "$2" "$3" "$4" "$5" "$6") || { printf "%-4s %-58s %s\n" "$1" "$7" "MUTATION DID NOT APPLY"; return; }
   local r
@@ -116,6 +125,79 @@ run M12 m_12 ctrlers/stake/delegatee.go 1 'delegatee.TotalPower -= s.Power
 run M13 m_13 ctrlers/stake/block_marker.go 1 'lastIdx := len(bm.BlockHeights) - 1' 'go func() {}()
 	lastIdx := len(bm.BlockHeights) - 1' "Mark: unsupported construct (go statement)"
 
+# ---- round 2: governance, limiter (updatable limit), stakes, transaction validation / fees
+G=ctrlers/gov/proposal
+run M14 m_14 $G/proposal.go 1 '(totalVotingPower * 2) / 3' '(totalVotingPower * 2) / 4' "NewGovProposal: majority 2/3 -> 2/4"
+run M15 m_15 $G/proposal.go 1 '(prop.TotalVotingPower * 2) / 3' '(prop.TotalVotingPower * 2) / 2' "DoPunish: majority recomputed as total"
+run M16 m_16 $G/proposal.go 1 'if voter.Power <= 0 {' 'if voter.Power < 0 {' "DoPunish: voter with power 0 kept"
+run M17 m_17 $G/proposal.go 1 'uint256.NewInt(uint64(100))' 'uint256.NewInt(uint64(1000))' "DoPunish: ratio taken per mille"
+run M18 m_18 $G/proposal.go 1 'voter.Choice = -1' 'voter.Choice = 0' "cancelVote: choice reset to option 0"
+run M19 m_19 $G/proposal.go 1 'opt.DoVote(voter.Power)' 'opt.DoVote(1)' "doVote: one vote per voter instead of its power"
+run M20 m_20 $G/option.go 1 'opt.votes -= power' 'opt.votes += power' "voteOption.CancelVote adds the power"
+run M21 m_21 $G/proposal.go 1 'if prop.Options[0].Votes() >= prop.MajorityPower {' 'if prop.Options[0].Votes() > prop.MajorityPower {' "updateMajorOption: >= majority -> >"
+run M22 m_22 $G/proposal.go 1 'return opts[i].votes > opts[j].votes' 'return opts[i].votes < opts[j].votes' "powerOrderVoteOptions.Less: ascending"
+run M23 m_23 $G/proposal.go 1 '_, ok := prop.Voters[addr.String()]
+	return ok' '_, ok := prop.Voters[addr.String()]
+	return !ok' "GovProposal.IsVoter negated"
+run M24 m_24 $G/header.go 1 'sum += v.Power' 'sum = v.Power' "SumVotingPowers: order-dependent map range (must be refused)"
+run M25 m_25 $G/option.go 1 'option: opt,' 'option: opt, votes: 1,' "NewVoteOptions: options start with one vote"
+run M26 m_26 ctrlers/types/gov_params.go 1 'newParams.gasPrice = oldParams.gasPrice' 'newParams.gasPrice = oldParams.rewardPerPower' "MergeGovParams: gas price defaults to rewardPerPower"
+run M27 m_27 ctrlers/stake/limiter.go 1 'powObj.Power+diffPower < candidate.Power' 'powObj.Power+diffPower <= candidate.Power' "limiter: leaving validator compared with <="
+run M28 m_28 ctrlers/stake/limiter.go 1 'updatedPower += lastVal.Power' 'updatedPower += diffPower' "limiter: entering validator counts its own change"
+run M29 m_29 ctrlers/stake/limiter.go 1 'if sl.baseTotalPower > 0 {' 'if sl.baseTotalPower >= 0 {' "limiter: zero base power divides again"
+run M30 m_30 ctrlers/stake/limiter.go 1 'powObj.Power += diffPower
+	sl.updatedPower = updatedPower
+	sort.Sort(orderedPowerObj(sl.powerObjs)) // sort by power' 'sort.Sort(orderedPowerObj(sl.powerObjs)) // sort by power
+	powObj.Power += diffPower
+	sl.updatedPower = updatedPower' "limiter: sort before the write through the element pointer (must be refused)"
+run M31 m_31 ctrlers/stake/limiter.go 1 'return sl.checkLimit(delg, changePower, false)' 'return sl.checkLimit(delg, changePower, true)' "EvaluateLimit records the change"
+run M32 m_32 ctrlers/stake/delegatee.go 1 'delegatee.TotalPower += s.Power' 'delegatee.TotalPower += 1' "addStake: total power +1 per stake"
+run M33 m_33 ctrlers/stake/delegatee.go 1 'CountInWindow(h0, h1, true)' 'CountInWindow(h0, h1, false)' "GetNotSignedBlockCount: window not pruned"
+run M34 m_34 ctrlers/stake/stake.go 1 'RefundHeight: 0,' 'RefundHeight: startHeight,' "NewStakeWithPower: refund height preset"
+run M35 m_35 node/trx_executor.go 1 'tx.Gas > math.MaxInt64' 'tx.Gas >= math.MaxInt64' "commonValidation0: gas bound off by one"
+run M36 m_36 node/trx_executor.go 1 'feeAmt.Cmp(ctx.GovHandler.MinTrxFee()) < 0' 'feeAmt.Cmp(ctx.GovHandler.MinTrxFee()) <= 0' "commonValidation0: fee must exceed the minimum"
+run M37 m_37 node/trx_executor.go 1 'if ctx.Exec {
+		_, pubKeyBytes, xerr' 'if false {
+		_, pubKeyBytes, xerr' "commonValidation0: signature check disabled"
+run M38 m_38 node/trx_executor.go 1 'tx.GasPrice.Cmp(ctx.GovHandler.GasPrice()) != 0' 'tx.GasPrice.Cmp(ctx.GovHandler.MinTrxFee()) != 0' "commonValidation0: oracle call GasPrice() vanished"
+run M39 m_39 node/trx_executor.go 1 'ctx.GasUsed = ctx.Tx.Gas' 'ctx.GasUsed = 0' "postRunTrx: no gas used"
+run M40 m_40 node/trx_executor.go 1 'fee := new(uint256.Int).Mul(ctx.Tx.GasPrice, uint256.NewInt(uint64(ctx.Tx.Gas)))' 'fee := new(uint256.Int).Add(ctx.Tx.GasPrice, uint256.NewInt(uint64(ctx.Tx.Gas)))' "postRunTrx: fee = price + gas"
+run M41 m_41 ctrlers/types/account.go 1 'acct.Nonce++' 'acct.Nonce += 2' "AddNonce: +2"
+run M42 m_42 ctrlers/types/gov_params.go 1 'return new(uint256.Int).Mul(uint256.NewInt(gas), price)' 'return new(uint256.Int).Mul(uint256.NewInt(gas+1), price)' "GasToFee: gas+1"
+run M43 m_43 ctrlers/stake/limiter.go 1 'return sl.checkLimit(delg, changePower, true)' 'return sl.checkLimit(delg, changePower, false)' "CheckLimit does not record the change"
+run M44 m_44 ctrlers/stake/delegatee.go 1 'return delegatee.addStake(stakes...)' 'return nil' "AddStake does nothing"
+run M45 m_45 ctrlers/stake/delegatee.go 1 'return delegatee.doSlashAll(ratio)' 'return delegatee.doSlashAll(ratio + 1)' "DoSlash: ratio + 1"
+run M46 m_46 $G/proposal.go 1 'return prop.updateMajorOption()' 'prop.updateMajorOption()
+	return nil' "UpdateMajorOption always returns nil"
+run M47 m_47 ctrlers/stake/delegatee.go 1 'return delegatee.NotSignedHeights.Mark(height)' 'return delegatee.NotSignedHeights.Mark(height + 1)' "ProcessNotSignedBlock marks the next height"
+run M48 m_48 ctrlers/stake/stake.go 1 'return NewStakeWithPower(owner, to, power, startHeight, txhash)' 'return NewStakeWithPower(to, owner, power, startHeight, txhash)' "NewStakeWithAmount: owner and delegatee swapped"
+run M49 m_49 ctrlers/stake/delegatee.go 1 'SelfPower:        0,' 'SelfPower:        1,' "NewDelegatee: self power 1"
+run M50 m_50 ctrlers/stake/delegatee.go 2 'delegatee.TotalPower -= s.Power
+		return s' 'delegatee.TotalPower += s.Power
+		return s' "DelStakeByIdx: total power grows"
+run M51 m_51 node/trx_executor.go 1 'needAmt := new(uint256.Int).Add(feeAmt, tx.Amount)' 'needAmt := new(uint256.Int).Sub(feeAmt, tx.Amount)' "commonValidation1: needed amount = fee - amount"
+run M52 m_52 $G/header.go 1 'return h.Voters[addr.String()]' 'return nil' "GetVoter never finds the voter"
+run M53 m_53 $G/header.go 1 '_, ok := h.Voters[addr.String()]
+	return ok' '_, ok := h.Voters[addr.String()]
+	return !ok' "GovProposalHeader.IsVoter negated"
+run M54 m_54 $G/proposal.go 1 'return opt.Votes() >= prop.MajorityPower' 'return opt.Votes() > prop.MajorityPower' "isMajor: >= -> >"
+run M55 m_55 $G/option.go 1 'opt.votes += power' 'opt.votes += 1' "voteOption.DoVote: +1"
+run M56 m_56 $G/option.go 3 'return opt.votes' 'return opt.votes + 1' "voteOption.Votes: +1"
+run M57 m_57 $G/proposal.go 1 'prop.cancelVote(voter)
+	prop.doVote(voter, choice)' 'prop.doVote(voter, choice)' "DoVote: previous vote not cancelled"
+run M58 m_58 ctrlers/types/account.go 1 'Nonce:   0,' 'Nonce:   1,' "NewAccount: nonce 1"
+run M59 m_59 ctrlers/types/gov_params.go 1 'gas := new(uint256.Int).Div(fee, price)' 'gas := new(uint256.Int).Mod(fee, price)' "FeeToGas: remainder"
+run M60 m_60 ctrlers/types/trx.go 1 'return tx.Type
+}' 'return tx.Type + 1
+}' "Trx.GetType: +1"
+run M61 m_61 ctrlers/stake/delegatee.go 1 'return delegatee.sumPowerOf(nil)' 'return delegatee.sumPowerOf(delegatee.Addr)' "SumPower: self power only"
+run M62 m_62 ctrlers/stake/delegatee.go 1 'return delegatee.sumPowerOf(addr)' 'return delegatee.sumPowerOf(nil)' "SumPowerOf: every owner"
+run M63 m_63 ctrlers/stake/limiter.go 1 'if sl.powerObjs == nil {
+		return nil
+	}' 'if sl.powerObjs == nil && changePower > 0 {
+		return nil
+	}' "checkLimit: nil limiter only passes positive changes"
+
 echo "---- (iii) harmless rewrites (either outcome is acceptable)"
 run H1 h_1 ctrlers/types/gov_params.go 1 '_vp := new(uint256.Int).Div(amt, amountPerPower)
 	vp := int64(_vp.Uint64())' 'quot := new(uint256.Int).Div(amt, amountPerPower)
@@ -129,6 +211,37 @@ run H4 h_4 ctrlers/stake/delegatee.go 1 'for _, s := range delegatee.Stakes {
 			power += s.Power' 'for _, st := range delegatee.Stakes {
 		if addr == nil || bytes.Compare(addr, st.From) == 0 {
 			power += st.Power' "sumPowerOf: loop variable renamed"
+
+run H5 h_5 $G/proposal.go 1 'voter := prop.Voters[addr.String()]
+	if voter == nil {
+		return xerrors.NewOrdinary("not found voter")
+	}
+
+	prop.cancelVote(voter)
+	prop.doVote(voter, choice)' 'vt := prop.Voters[addr.String()]
+	if vt == nil {
+		return xerrors.NewOrdinary("not found voter")
+	}
+
+	prop.cancelVote(vt)
+	prop.doVote(vt, choice)' "DoVote: local voter renamed"
+run H6 h_6 ctrlers/stake/limiter.go 1 'updatedPower += -1 * diffPower' 'updatedPower -= diffPower' "limiter: += -1*d  ->  -= d"
+run H7 h_7 ctrlers/types/gov_params.go 1 'if newParams.version == 0 {
+		newParams.version = oldParams.version
+	}
+
+	if newParams.maxValidatorCnt == 0 {
+		newParams.maxValidatorCnt = oldParams.maxValidatorCnt
+	}' 'if newParams.maxValidatorCnt == 0 {
+		newParams.maxValidatorCnt = oldParams.maxValidatorCnt
+	}
+
+	if newParams.version == 0 {
+		newParams.version = oldParams.version
+	}' "MergeGovParams: two independent blocks swapped"
+run H8 h_8 node/trx_executor.go 1 'feeAmt := new(uint256.Int).Mul(tx.GasPrice, uint256.NewInt(tx.Gas))
+	if feeAmt.Cmp(ctx.GovHandler.MinTrxFee()) < 0 {' 'fee0 := new(uint256.Int).Mul(tx.GasPrice, uint256.NewInt(tx.Gas))
+	if fee0.Cmp(ctx.GovHandler.MinTrxFee()) < 0 {' "commonValidation0: local feeAmt renamed"
 
 echo
 bad=0
